@@ -68,9 +68,9 @@ Proof. exact actor_code_edit_inv. Qed.
 
 (* the parser accepts exactly the legal specifications of the documented grammar (any nesting, any number of names,
    file(..) at every level) and gives them their declarative meaning; illegal ones (double declaration of script / live /
-   def / imp / trt / a name, nested file) are rejected *)
-Theorem C15_parse_grammar : forall e : edit_ast, nonempty e = true ->
-  forget (edit_parse (render e)) = if legal e then Some (denote e) else None.
+   def / imp / trt / a name, nested file) and those with an empty list (`edit()`, `script()`, `imp()`, `file()`) are rejected *)
+Theorem C15_parse_grammar : forall e : edit_ast,
+  forget (edit_parse (render e)) = if nonempty e && legal e then Some (denote e) else None.
 Proof. exact parse_grammar. Qed.
 
 Theorem C15_pipeline : forall (A : Type) (e : edit_ast) (s l : part A),
@@ -97,8 +97,8 @@ Theorem C15_parse_names_nodup : forall (m : meta) (e : edit_actor), edit_parse m
 Proof. exact parse_names_nodup. Qed.
 
 (* family level: lists of any length parse per the documented grammar edit(def, imp(..), trt(..)) with file(..) wrappers *)
-Theorem C15_family_parse : forall e : fam_ast, nonempty_fam e = true ->
-  forget (edit_parse_family (render_fam e)) = if legal_fam e then Some (denote_fam e) else None.
+Theorem C15_family_parse : forall e : fam_ast,
+  forget (edit_parse_family (render_fam e)) = if nonempty_fam e && legal_fam e then Some (denote_fam e) else None.
 Proof. exact family_parse_full. Qed.
 
 Theorem C15_family_edit_any_length : forall l : list sitem, ne l = true -> forallb nonempty_sitem l = true ->
@@ -107,8 +107,8 @@ Theorem C15_family_edit_any_length : forall l : list sitem, ne l = true -> foral
 Proof. exact family_edit_any_length. Qed.
 
 (* family members: edit(..) inside actor(..) is parsed with the actor grammar; bare `edit` = edit(script, live) *)
-Theorem C15_member_parse : forall e : edit_ast, nonempty e = true ->
-  forget (edit_parse_member (render e)) = if legal e then Some (denote e) else None.
+Theorem C15_member_parse : forall e : edit_ast,
+  forget (edit_parse_member (render e)) = if nonempty e && legal e then Some (denote e) else None.
 Proof. exact member_parse_grammar. Qed.
 
 Theorem C15_member_bare_edit :
@@ -116,6 +116,39 @@ Theorem C15_member_bare_edit :
   /\ edit_parse_member (render EBare) = edit_parse_member (render (EList [EPart (PSol true None); EPart (PSol false None)]))
   /\ edit_parse_member (render EFileBare) = Ok {| ea_remove := true; ea_script := all_tuples true; ea_live := all_tuples true |}.
 Proof. exact member_bare_edit. Qed.
+
+(* rules on ARBITRARY attribute trees ---------------------------------------------------------------------------------- *)
+(* an empty list `w()` is rejected in every position the parser looks at ... *)
+Theorem C15_empty_edit : forall e, is_diag (parse e (MList "edit" [])) = true /\ is_diag (parse_family e (MList "edit" [])) = true.
+Proof. exact empty_edit_diag. Qed.
+Theorem C15_empty_part : forall e n file, is_diag (parse_sol e (MList n []) file) = true.
+Proof. exact empty_part_diag. Qed.
+Theorem C15_empty_names : forall name t n file, n = "imp" \/ n = "trt" -> is_diag (nested_t name t (MList n []) file) = true.
+Proof. exact empty_names_diag. Qed.
+Theorem C15_empty_file : forall e sol f opt,
+  is_diag (top_step e (MList "file" [])) = true /\ is_diag (sol_step sol f e (MList "file" [])) = true
+  /\ is_diag (idents_step f opt (MList "file" [])) = true /\ is_diag (file_part_step e (MList "file" [])) = true.
+Proof. exact empty_file_diag. Qed.
+(* ... also when it stands anywhere in a list handed to edit / script / live / imp / trt *)
+Theorem C15_empty_anywhere_top : forall (l : list meta) n, In (MList n []) l -> is_diag (edit_parse (MList "edit" l)) = true.
+Proof. exact empty_anywhere_top. Qed.
+Theorem C15_empty_anywhere_part : forall e sol file (l : list meta) n, In (MList n []) l ->
+  is_diag (parse_sol e (MList (sol_name sol) l) file) = true.
+Proof. exact empty_anywhere_part. Qed.
+Theorem C15_empty_anywhere_names : forall os key file (l : list meta) n, In (MList n []) l ->
+  is_diag (parse_idents os (MList key l) file) = true.
+Proof. exact empty_anywhere_names. Qed.
+(* a position that only has meaning as a bare word (`def`, a method / trait name) rejects `w(..)` and `w = v` *)
+Theorem C15_def_not_word : forall name t m file, mname m = "def" -> is_word m = false -> is_diag (nested_t name t m file) = true.
+Proof. exact def_not_word_diag. Qed.
+Theorem C15_name_not_word : forall vec m file, is_word m = false -> is_diag (add_if_unique vec m file) = true.
+Proof. exact name_not_word_diag. Qed.
+Theorem C15_name_not_word_anywhere : forall os key file (l : list meta) m, In m l -> is_word m = false -> mname m <> "file" ->
+  is_diag (parse_idents os (MList key l) file) = true.
+Proof. exact name_not_word_anywhere. Qed.
+Theorem C15_name_in_file_not_word : forall os key file (l fl : list meta) m, In (MList "file" fl) l -> In m fl -> is_word m = false ->
+  is_diag (parse_idents os (MList key l) file) = true.
+Proof. exact name_in_file_not_word. Qed.
 
 Print Assumptions C15_partition.
 Print Assumptions C15_disjoint.
@@ -134,3 +167,14 @@ Print Assumptions C15_family_parse.
 Print Assumptions C15_family_edit_any_length.
 Print Assumptions C15_member_parse.
 Print Assumptions C15_member_bare_edit.
+Print Assumptions C15_empty_edit.
+Print Assumptions C15_empty_part.
+Print Assumptions C15_empty_names.
+Print Assumptions C15_empty_file.
+Print Assumptions C15_empty_anywhere_top.
+Print Assumptions C15_empty_anywhere_part.
+Print Assumptions C15_empty_anywhere_names.
+Print Assumptions C15_def_not_word.
+Print Assumptions C15_name_not_word.
+Print Assumptions C15_name_not_word_anywhere.
+Print Assumptions C15_name_in_file_not_word.
